@@ -4,7 +4,7 @@
 (* machine: every property is an invariant over the history (documents      *)
 (* added) and the accumulated tree after each stage.                        *)
 (***************************************************************************)
-EXTENDS AyBuild, Props_C02
+EXTENDS AyBuild, Props_C02, Props_C03
 
 HistDocs  == [i \in 1..Len(hist) |-> hist[i].sd]
 HistSafes == [i \in 1..Len(hist) |-> hist[i].safe]
@@ -13,8 +13,15 @@ Inv_C02          == C02_Holds(HistDocs, accs)
 Inv_C02_NoKeyLost == C02_NoKeyLost(HistDocs, accs)
 Inv_C02_Frame    == C02_Frame(HistDocs, accs)
 
+Inv_C03 == C03_Holds(HistDocs, accs)
+\* the antecedent is reachable: some 3-stage history inside the domain has
+\* writers of three different priorities at one path (checked as ~Witness)
+C03_Witness == /\ phase = "done" /\ Len(hist) >= 2 /\ C03_InDomain(HistDocs)
+               /\ \E p \in C03_AllPaths(HistDocs, Len(hist)) :
+                      Cardinality({C03_SPr(HistDocs[j], p, 0) : j \in C03_Writers(HistDocs, Len(hist), p)}) >= 2
+
 \* behaviours for replay: one JSON line per terminal state
-CompactOut(r) == IF IsErr(r) THEN [e |-> r.err] ELSE Compact(DataOf(r))
+CompactOut(r) == IF IsErr(r) THEN [e |-> r.err] ELSE CompactN(r)
 
 Emit == Terminal => PrintT(ToJson([h |-> [i \in 1..Len(hist) |-> hist[i].i],
                                    s |-> HistSafes,
